@@ -67,6 +67,7 @@ func init() {
 			{Func: "H_C03_enum", Quick: enumTuples(true), Thorough: enumTuples(false), Covers: []string{"end"}},
 			{Func: "H_C03_literal", Quick: litTuples(3), Thorough: litTuples(4), Covers: []string{"compared", "rejected"}},
 			{Func: "H_C03_annotations", Covers: []string{"end"}},
+			{Func: "H_C03_double", Quick: rng(0, 7), Covers: []string{"end"}},
 			{Func: "H_C03_layout_ws", Quick: cross(seq(1, 195), 1, 1), Thorough: cross(seq(1, 195), 1, 2), Covers: []string{"end"}},
 			{Func: "H_C03_layout_comment", Quick: commentTuples(1), Thorough: commentTuples(2), Covers: []string{"end"}},
 			{Func: "H_C03_layout_sep", Quick: rng(0, 20), Covers: []string{"end"}},
